@@ -799,8 +799,10 @@ def extract_capabilities(text: bytes) -> tuple[bytes, list[bytes]]:
     """
     if b"\0" not in text:
         return text, []
-    text, capabilities = text.rstrip().split(b"\0")
-    return (text, capabilities.strip().split(b" "))
+    # Only the line terminator goes: a capability may end in any other byte,
+    # and an empty list is no capability, not an empty one.
+    text, capabilities = text.rstrip(b"\n").split(b"\0")
+    return (text, [c for c in capabilities.split(b" ") if c])
 
 
 def extract_want_line_capabilities(text: bytes) -> tuple[bytes, list[bytes]]:
@@ -815,10 +817,10 @@ def extract_want_line_capabilities(text: bytes) -> tuple[bytes, list[bytes]]:
       text: Want line to extract from
     Returns: Tuple with text with capabilities removed and list of capabilities
     """
-    split_text = text.rstrip().split(b" ")
+    split_text = text.rstrip(b"\n").split(b" ")
     if len(split_text) < 3:
         return text, []
-    return (b" ".join(split_text[:2]), split_text[2:])
+    return (b" ".join(split_text[:2]), [c for c in split_text[2:] if c])
 
 
 def ack_type(capabilities: Iterable[bytes]) -> int:
